@@ -18,6 +18,8 @@
 -/
 import XotModel.Lemmas.FinvReach2
 import XotModel.Lemmas.FinvStable
+import XotModel.Lemmas.FinvValue6
+import XotModel.Lemmas.FinvReads
 
 namespace XotModel.Props
 open XotModel
@@ -408,5 +410,146 @@ theorem C04_value_stable_detach (f : Forest) (n h : Nat) (v : Value) (hi : f.Inv
     of `a` and rewrites the text `x`. -/
 example : (gapForest.remove 2).1.value? 0 = some (.element 1) ∧
     (gapForest.remove 2).1.value? 1 = some (.text ['x', 'y']) := by decide
+
+/-! ### A handle keeps its meaning: every call, every history
+
+`Forest.Call` / `Forest.HStep` / `Op`: all calls of the mutating API.  `c.targets f`
+(Model/FlocalSpec.lean) are the handles whose value the call may overwrite: the argument of
+`set_element_name` and of the text / comment / PI setters, the text node `text_content_mut` hands
+out, and for a map insertion (`insert`, `append_attribute_node`, `append_namespace_node`,
+`any_append` of an entry node) the existing entry node of that key; empty for every other call.
+`Forest.TextExt v v'`: both are text and the old content is a contiguous part of the new one (what
+consolidation does to the text node that survives a merge: `old ++ merged` when the surviving node
+is the earlier one, `merged ++ old` when a text node is placed in front of it). -/
+
+/-- One call, whatever its arguments and outcome: a handle live before and after denotes a node
+    of the same kind; unless it is a target its value is the same or, for text, extended; a node
+    that is not text and not a target has exactly the same value. -/
+theorem C04_value_call (f : Forest) (hi : f.Inv) (c : Forest.Call) (x : Nat) (v v' : Value)
+    (hv : f.value? x = some v) (hv' : (c.run f).1.value? x = some v') :
+    SameKind v v' ∧ (x ∉ c.targets f → v' = v ∨ Forest.TextExt v v') ∧
+    (x ∉ c.targets f → v.isText = false → v' = v) :=
+  ((Forest.vstep_call (S := fun y => y ∈ c.targets f) hi c (fun _ h => h)).value hi hv hv').cases_any
+
+/-- The same for the steps that are not calls on nodes (creation, set_text_consolidation,
+    remove_insignificant_whitespace: no targets). -/
+theorem C04_value_step (f : Forest) (hi : f.Inv) (st : Forest.HStep) (x : Nat) (v v' : Value)
+    (hv : f.value? x = some v) (hv' : (f.stepAll st).value? x = some v') :
+    SameKind v v' ∧ (x ∉ st.targets f → v' = v ∨ Forest.TextExt v v') ∧
+    (x ∉ st.targets f → v.isText = false → v' = v) :=
+  ((Forest.vstep_stepAll (S := fun y => y ∈ st.targets f) hi st (fun _ h => h)).value hi hv hv').cases_any
+
+/-- A handle that was live is afterwards live or removed (and then stays removed,
+    `C04_isRemoved_history`). -/
+theorem C04_live_or_removed (f : Forest) (hi : f.Inv) (st : Forest.HStep) (x : Nat)
+    (hl : f.isLive x = true) : (f.stepAll st).isLive x = true ∨ (f.stepAll st).isRemoved x = true :=
+  (Forest.vstep_stepAll (S := fun _ => True) hi st (fun _ _ => trivial)).live_or_removed hi hl
+
+/-- `clone_node` changes no value at all. -/
+theorem C04_value_cloneNode (f : Forest) (hi : f.Inv) (n x : Nat) (v : Value)
+    (hv : f.value? x = some v) (hl : (f.cloneNode n).1.isLive x = true) :
+    (f.cloneNode n).1.value? x = some v := by
+  rw [Forest.isLive_iff_value?] at hl
+  cases hv' : (f.cloneNode n).1.value? x with
+  | none => rw [hv'] at hl; cases hl
+  | some v' =>
+    rcases (Forest.vstep_cloneNode (S := fun _ => False) (T := fun _ => False) hi n).value hi hv hv' with h | h | h
+    · rw [h]
+    · exact h.1.elim
+    · exact h.1.elim
+
+/-- Exactly which values a move can change (text included): `append(p, c)` the previous sibling of
+    `c` and the last child of `p` (read after the old-site merge); `prepend` the first child;
+    `insert_after` / `insert_before` the reference node and its neighbour on the other side;
+    `detach` / `remove` the previous sibling. -/
+theorem C04_value_exact_append (f : Forest) (hi : f.Inv) (p c x : Nat) (v v' : Value)
+    (hv : f.value? x = some v) (hv' : (f.append p c).1.value? x = some v')
+    (hx : x ∉ f.appendSites p c) : v' = v := Forest.append_value_exact hi p c hv hv' hx
+theorem C04_value_exact_prepend (f : Forest) (hi : f.Inv) (p c x : Nat) (v v' : Value)
+    (hv : f.value? x = some v) (hv' : (f.prepend p c).1.value? x = some v')
+    (hx : x ∉ f.prependSites p c) : v' = v := Forest.prepend_value_exact hi p c hv hv' hx
+theorem C04_value_exact_insertAfter (f : Forest) (hi : f.Inv) (r c x : Nat) (v v' : Value)
+    (hv : f.value? x = some v) (hv' : (f.insertAfter r c).1.value? x = some v')
+    (hx : x ∉ f.insertAfterSites r c) : v' = v := Forest.insertAfter_value_exact hi r c hv hv' hx
+theorem C04_value_exact_insertBefore (f : Forest) (hi : f.Inv) (r c x : Nat) (v v' : Value)
+    (hv : f.value? x = some v) (hv' : (f.insertBefore r c).1.value? x = some v')
+    (hx : x ∉ f.insertBeforeSites r c) : v' = v := Forest.insertBefore_value_exact hi r c hv hv' hx
+theorem C04_value_exact_detach (f : Forest) (hi : f.Inv) (n x : Nat) (v v' : Value)
+    (hv : f.value? x = some v) (hv' : (f.detach n).1.value? x = some v')
+    (hx : f.prevSibling n ≠ some x) : v' = v := Forest.detach_value_exact hi n hv hv' hx
+theorem C04_value_exact_remove (f : Forest) (hi : f.Inv) (n x : Nat) (v v' : Value)
+    (hv : f.value? x = some v) (hv' : (f.remove n).1.value? x = some v')
+    (hx : f.prevSibling n ≠ some x) : v' = v := Forest.remove_value_exact hi n hv hv' hx
+
+/-- Inside a moved subtree every node other than its root keeps its value exactly, text nodes
+    too.  (The root `c` itself, when it is a text node arriving next to a text node, is merged away:
+    it is then removed; otherwise `C04_value_call` applies to it.) -/
+theorem C04_value_moved_append (f : Forest) (hi : f.Inv) (p c x : Nat) (tc : HTree) (v v' : Value)
+    (hg : f.get? c = some tc) (hx : x ∈ HTree.handles tc) (hxc : x ≠ c)
+    (hv : f.value? x = some v) (hv' : (f.append p c).1.value? x = some v') : v' = v :=
+  Forest.append_subtree_exact hi p c hg hx hxc hv hv'
+theorem C04_value_moved_prepend (f : Forest) (hi : f.Inv) (p c x : Nat) (tc : HTree) (v v' : Value)
+    (hg : f.get? c = some tc) (hx : x ∈ HTree.handles tc) (hxc : x ≠ c)
+    (hv : f.value? x = some v) (hv' : (f.prepend p c).1.value? x = some v') : v' = v :=
+  Forest.prepend_subtree_exact hi p c hg hx hxc hv hv'
+theorem C04_value_moved_insertAfter (f : Forest) (hi : f.Inv) (r c x : Nat) (tc : HTree) (v v' : Value)
+    (hg : f.get? c = some tc) (hx : x ∈ HTree.handles tc) (hxc : x ≠ c)
+    (hv : f.value? x = some v) (hv' : (f.insertAfter r c).1.value? x = some v') : v' = v :=
+  Forest.insertAfter_subtree_exact hi r c hg hx hxc hv hv'
+theorem C04_value_moved_insertBefore (f : Forest) (hi : f.Inv) (r c x : Nat) (tc : HTree) (v v' : Value)
+    (hg : f.get? c = some tc) (hx : x ∈ HTree.handles tc) (hxc : x ≠ c)
+    (hv : f.value? x = some v) (hv' : (f.insertBefore r c).1.value? x = some v') : v' = v :=
+  Forest.insertBefore_subtree_exact hi r c hg hx hxc hv hv'
+
+/-- Summary.  Along any history of calls, between any two points of time `pre` and `pre ++ mid` at
+    which the handle `h` is live (it is then live throughout, `C04_isRemoved_history`): the node
+    kind is the same; if no call in between had `h` among its targets (each call judged in the
+    state it is issued in, `Forest.neverTarget`) the value is the same, text content possibly
+    extended by consolidation; so a node that is not text has exactly the same value. -/
+theorem C04_handle_meaning (f : Forest) (hi : f.Inv) (pre mid : List Op) (h : Nat) (v v' : Value)
+    (hv : (f.run pre).value? h = some v) (hv' : ((f.run pre).run mid).value? h = some v') :
+    SameKind v v' ∧ ((f.run pre).neverTarget h mid → v' = v ∨ Forest.TextExt v v') ∧
+    ((f.run pre).neverTarget h mid → v.isText = false → v' = v) := by
+  have hi1 : (f.run pre).Inv := Forest.run_inv hi pre (fun o _ => by cases o <;> rfl)
+  have key := Forest.history_value mid hi1 hv hv'
+  refine ⟨key.1, key.2, fun hn hnt => ?_⟩
+  rcases key.2 hn with e | e
+  · exact e
+  · exact (e.of_nontext hnt).elim
+
+/-- Non-vacuity: wrap / replace / map update / clone / whitespace removal on `gapForest`
+    (`<a>x<b/>y</a>`, text `z`, element 5): element 0 keeps its value, the text 1 is extended when
+    `b` is replaced by the text `z`; the attribute update is a target. -/
+def hmOps : List Op := [.elementWrap 2 9, .attrInsert 0 7 ['v'], .cloneNode 0, .replace 2 4,
+  .removeInsignificantWhitespace 0, .attrInsert 0 7 ['w'], .elementUnwrap 6]
+example : gapForest.Inv := (Forest.inv_iff _).mp (by decide)
+example : gapForest.value? 0 = some (.element 1) ∧ (gapForest.run hmOps).value? 0 = some (.element 1) ∧
+    gapForest.value? 1 = some (.text ['x']) ∧ (gapForest.run hmOps).value? 1 = some (.text ['x', 'z', 'y']) ∧
+    gapForest.neverTarget 0 hmOps ∧ (gapForest.run hmOps).isRemoved 3 = true := by decide +kernel
+example : (gapForest.run (hmOps.take 2)).value? 7 = some (.attribute 7 ['v']) ∧
+    (gapForest.run hmOps).value? 7 = some (.attribute 7 ['w']) ∧
+    ¬ (gapForest.run (hmOps.take 2)).neverTarget 7 (hmOps.drop 2) := by decide +kernel
+example : gapForest.appendSites 5 2 = [1] ∧ gapForest.insertAfterSites 3 4 = [3] := by decide +kernel
+
+/-! ### No read hands out a removed node -/
+
+/-- Every handle returned by a node-returning read (`Forest.Read`: parent, first_child, last_child,
+    next_sibling, previous_sibling, ancestors, children, descendants, the nodes of the attribute /
+    namespace maps, the map lookup, the roots) is live, hence not removed. -/
+theorem C04_reads_live (f : Forest) (hi : f.Inv) (r : Forest.Read) (x : Nat) (hx : x ∈ r.result f) :
+    f.isLive x = true ∧ f.isRemoved x = false :=
+  ⟨Forest.reads_live hi r x hx, Forest.isRemoved_false_of_live (Forest.reads_live hi r x hx)⟩
+
+/-- `is_removed(h)`: handed out earlier and not in the forest any more. -/
+theorem C04_isRemoved_iff (f : Forest) (h : Nat) :
+    f.isRemoved h = true ↔ h < f.next ∧ f.isLive h = false := by simp [Forest.isRemoved]
+
+/-- What a lookup returns is the node asked for, and all its nodes are live. -/
+theorem C04_get_live (f : Forest) (h x : Nat) (t : HTree) (hg : f.get? h = some t)
+    (hx : x ∈ HTree.handles t) : t.handle = h ∧ f.isLive x = true :=
+  ⟨Forest.get?_handle hg, Forest.live_of_get?_mem hg hx⟩
+
+example : (Forest.Read.children 0).result gapForest = [1, 2, 3] ∧
+    (Forest.Read.previousSibling 2).result gapForest = [1] := by decide
 
 end XotModel.Props
